@@ -22,6 +22,8 @@
 (*   ESUB / EPSUB / EACK  a subscription owes, per partition in order, the *)
 (*                        matching events at or after its start position;  *)
 (*                        at most (acknowledged + window) are delivered    *)
+(*   RECONNECT            the client closes the connection and opens a new  *)
+(*                        one: the old connection's subscriptions end       *)
 (*   invalid requests     an error reply, the state unchanged, the         *)
 (*                        connection alive                                 *)
 (*                                                                         *)
@@ -34,6 +36,7 @@ EXTENDS EventStore, Json
 CONSTANTS KeyPart,      \* Keys -> Parts : the partition a partition key hashes to
           DefKey,       \* Streams -> Keys : the key derived from the stream id
           Invalids,     \* names of invalid requests (bytes are in the harness)
+          Conns,        \* client connections (a subscription belongs to the connection it was opened on)
           Strict,       \* append.strict_versioning: expectations "any" / "exists" (and a missing clause) are refused
           EmitAt
 VARIABLES h, n, subs
@@ -91,90 +94,91 @@ UnitDue(L, sub, u) ==
          IN [i \in 1..Len(qs) |-> <<p, qs[i]>>]
 UnitSeq(sub) == LET RECURSIVE F(_) F(T) == IF T = {} THEN << >> ELSE LET m == CHOOSE x \in T : TRUE IN <<m>> \o F(T \ {m}) IN F(sub.units)
 DueOut(L, sub) == LET us == UnitSeq(sub) IN [i \in 1..Len(us) |-> UnitDue(L, sub, us[i])]
-SubsOut(L, S) == [i \in 1..Len(S) |-> [due |-> DueOut(L, S[i]), cap |-> S[i].ack + S[i].win]]
+SubsOut(L, S) == [i \in 1..Len(S) |-> [due |-> DueOut(L, S[i]), cap |-> S[i].ack + S[i].win, open |-> S[i].open, conn |-> S[i].conn]]
 Delivered(L, sub) == MinOf(Cardinality(Due(L, sub)), sub.ack + sub.win)
 
 NextVer(L, k, s) ==     \* next version of (k, s) in the key's partition
     Cardinality({j \in 1..Len(L[KeyPart[k]]) : L[KeyPart[k]][j].s = s /\ L[KeyPart[k]][j].key = k})
 
 ----------------------------------------------------------------------------
-Step(entry) == /\ h' = Append(h, entry @@ [subs |-> SubsOut(log', subs')])
-               /\ n' = n + 1
+\* c: the connection the command is sent on
+Step(c, entry) == /\ h' = Append(h, entry @@ [conn |-> c, subs |-> SubsOut(log', subs')])
+                  /\ n' = n + 1
 
 \* EAPPEND <s> <name> [PARTITION_KEY k] [EXPECTED_VERSION x] [TIMESTAMP ts]
 \* ts: "none" (server clock), "ok", "zero", "maxok" (largest encodable), "enc" (not encodable: >= 2^63 ns),
 \*     "ovf" (milliseconds * 10^6 overflows 64 bits)
 StrictRefuses(xs) == Strict /\ \E i \in 1..Len(xs) : xs[i].k \in {"any", "exists"}
 Outcome(tx) == IF StrictRefuses([i \in 1..Len(tx.evs) |-> tx.evs[i].x]) THEN [ok |-> FALSE, class |-> "strict"] ELSE Evaluate(log, tx)
-EAppend(s, usekey, k, x, ts) ==
+EAppend(c, s, usekey, k, x, ts) ==
     LET key == IF usekey THEN k ELSE DefKey[s]
         tx == [id |-> n + 1, key |-> key, p |-> KeyPart[key], xs |-> V!Any,
                evs |-> <<[s |-> s, x |-> x, badts |-> ts \in {"enc", "ovf"}]>>, oversize |-> FALSE]
     IN /\ IF Outcome(tx).ok THEN AppendTx(tx) ELSE UNCHANGED log
        /\ UNCHANGED subs
-       /\ Step([cmd |-> "EAPPEND", s |-> s, key |-> IF usekey THEN k ELSE "-", x |-> x, ts |-> ts,
+       /\ Step(c, [cmd |-> "EAPPEND", s |-> s, key |-> IF usekey THEN k ELSE "-", x |-> x, ts |-> ts,
                 p |-> KeyPart[key], res |-> Outcome(tx)])
 
 \* EMAPPEND <k> (<s> <name> [EXPECTED_VERSION x] [TIMESTAMP ts])+
-EMAppend(k, evs) ==      \* evs : Seq([s, x, ts])
+EMAppend(c, k, evs) ==      \* evs : Seq([s, x, ts])
     LET tx == [id |-> n + 1, key |-> k, p |-> KeyPart[k], xs |-> V!Any,
                evs |-> [i \in 1..Len(evs) |-> [s |-> evs[i].s, x |-> evs[i].x, badts |-> evs[i].ts \in {"enc", "ovf"}]],
                oversize |-> FALSE]
     IN /\ IF Outcome(tx).ok THEN AppendTx(tx) ELSE UNCHANGED log
        /\ UNCHANGED subs
-       /\ Step([cmd |-> "EMAPPEND", key |-> k, evs |-> evs, p |-> KeyPart[k], res |-> Outcome(tx)])
+       /\ Step(c, [cmd |-> "EMAPPEND", key |-> k, evs |-> evs, p |-> KeyPart[k], res |-> Outcome(tx)])
 
 \* EGET <event id>: the event is named by (transaction, index); unknown ids and ids of rejected transactions give null
-EGet(t, i) ==
+EGet(c, t, i) ==
     LET hits == {pq \in UNION {{<<p, q>> : q \in 1..Len(log[p])} : p \in Parts} : log[pq[1]][pq[2]].tx = t}
         first == IF hits = {} THEN 0 ELSE (CHOOSE m \in {x[2] : x \in hits} : \A y \in hits : m <= y[2])
         p == IF hits = {} THEN 0 ELSE (CHOOSE x \in hits : TRUE)[1]
         found == hits # {} /\ first + i - 1 \in {x[2] : x \in hits}
     IN /\ UNCHANGED <<log, subs>>
-       /\ Step([cmd |-> "EGET", tx |-> t, i |-> i,
+       /\ Step(c, [cmd |-> "EGET", tx |-> t, i |-> i,
                 res |-> IF found THEN [found |-> TRUE, p |-> p, q |-> first + i - 2] ELSE [found |-> FALSE]])
 
 \* ESCAN <s> <start> <end> [PARTITION_KEY k] [COUNT c]    start: -1 ("-") or n; end: -1 ("+") or n; count: -1 (absent: 100) or n
 \* (the value UMax stands for the largest 64-bit number)
 Num(x, dflt) == IF x < 0 THEN dflt ELSE x
-EScan(s, usekey, k, start, end, count) ==
+EScan(c, s, usekey, k, start, end, count) ==
     LET key == IF usekey THEN k ELSE DefKey[s] IN
     /\ ReadableBy(log, key, s)
     /\ UNCHANGED <<log, subs>>
-    /\ Step([cmd |-> "ESCAN", s |-> s, key |-> IF usekey THEN k ELSE "-", start |-> start, end |-> end, count |-> count,
+    /\ Step(c, [cmd |-> "ESCAN", s |-> s, key |-> IF usekey THEN k ELSE "-", start |-> start, end |-> end, count |-> count,
              res |-> SScan(log, Bucket(KeyPart[key]), s, Num(start, 0), Num(end, 0 - 1), Num(count, 100))])
 \* EPSCAN <p | key> <start> <end> [COUNT c]
-EPScan(bykey, k, p, start, end, count) ==
+EPScan(c, bykey, k, p, start, end, count) ==
     LET pp == IF bykey THEN KeyPart[k] ELSE p IN
     /\ UNCHANGED <<log, subs>>
-    /\ Step([cmd |-> "EPSCAN", sel |-> IF bykey THEN k ELSE p, start |-> start, end |-> end, count |-> count,
+    /\ Step(c, [cmd |-> "EPSCAN", sel |-> IF bykey THEN k ELSE p, start |-> start, end |-> end, count |-> count,
              res |-> PScan(log, pp, Num(start, 0), Num(end, 0 - 1), Num(count, 100))])
 \* scans with '+' as start or '-' as end are errors   (form: "plus_start", "minus_end", "plus_plus", "minus_minus")
-ScanBadRange(which, s, p, form) ==
+ScanBadRange(c, which, s, p, form) ==
     /\ UNCHANGED <<log, subs>>
-    /\ Step([cmd |-> which, s |-> s, key |-> "-", sel |-> p, bad_range |-> form, res |-> [error |-> TRUE]])
+    /\ Step(c, [cmd |-> which, s |-> s, key |-> "-", sel |-> p, bad_range |-> form, res |-> [error |-> TRUE]])
 
-ESVer(s, usekey, k) ==
+ESVer(c, s, usekey, k) ==
     LET key == IF usekey THEN k ELSE DefKey[s] IN
     /\ ReadableBy(log, key, s)
     /\ UNCHANGED <<log, subs>>
-    /\ Step([cmd |-> "ESVER", s |-> s, key |-> IF usekey THEN k ELSE "-",
+    /\ Step(c, [cmd |-> "ESVER", s |-> s, key |-> IF usekey THEN k ELSE "-",
              res |-> VerOut(CurVer(log, Bucket(KeyPart[key]), s))])
-EPSeq(bykey, k, p) ==
+EPSeq(c, bykey, k, p) ==
     /\ UNCHANGED <<log, subs>>
-    /\ Step([cmd |-> "EPSEQ", sel |-> IF bykey THEN k ELSE p,
+    /\ Step(c, [cmd |-> "EPSEQ", sel |-> IF bykey THEN k ELSE p,
              res |-> VerOut(CurSeq(log, IF bykey THEN KeyPart[k] ELSE p))])
 
 \* an invalid request: error reply, nothing changes
-Invalid(name) ==
+Invalid(c, name) ==
     /\ name \in Invalids
     /\ UNCHANGED <<log, subs>>
-    /\ Step([cmd |-> "INVALID", name |-> name, res |-> [error |-> TRUE]])
+    /\ Step(c, [cmd |-> "INVALID", name |-> name, res |-> [error |-> TRUE]])
 
 \* ESUB <s> [PARTITION_KEY k] ... [FROM LATEST | FROM v | FROM MAP s=v ...] [WINDOW w]
 \*   streams : Seq([s, key ("-": default)]), distinct stream ids;  from : [k : none/latest/all/map ...]
 WinOf(w) == IF w < 0 THEN 1000 ELSE w      \* -1: no WINDOW clause
-ESub(streams, from, w) ==
+ESub(c, streams, from, w) ==
     LET KeyOf(i) == IF streams[i].key = "-" THEN DefKey[streams[i].s] ELSE streams[i].key
         units == {<<KeyOf(i), streams[i].s>> : i \in 1..Len(streams)}
         mapped(u) == from.k = "map" /\ \E j \in 1..Len(from.m) : from.m[j].s = u[2]
@@ -182,9 +186,10 @@ ESub(streams, from, w) ==
                     ELSE IF mapped(u) THEN (CHOOSE e \in {from.m[j] : j \in 1..Len(from.m)} : e.s = u[2]).v
                     ELSE NextVer(log, u[1], u[2])
     IN /\ \A i \in 1..Len(streams) : SubKeyOk(log, KeyOf(i), streams[i].s)
-       /\ subs' = Append(subs, [kind |-> "S", units |-> units, from |-> [u \in units |-> start(u)], win |-> WinOf(w), ack |-> 0])
+       /\ subs' = Append(subs, [kind |-> "S", units |-> units, from |-> [u \in units |-> start(u)], win |-> WinOf(w), ack |-> 0,
+                                 conn |-> c, open |-> TRUE])
        /\ UNCHANGED log
-       /\ Step([cmd |-> "ESUB", streams |-> streams, from |-> from, win |-> w, res |-> [sub |-> Len(subs) + 1]])
+       /\ Step(c, [cmd |-> "ESUB", streams |-> streams, from |-> from, win |-> w, res |-> [sub |-> Len(subs) + 1]])
 \* EPSUB * | p | p1,p2 | a-b | key  [FROM LATEST | FROM n | FROM MAP p=n ... [DEFAULT d]] [WINDOW w]
 \*   sel : [k : all/one/list/range/key ...]
 SelParts(sel) ==
@@ -193,22 +198,37 @@ SelParts(sel) ==
       [] sel.k = "list" -> {sel.ps[i] : i \in 1..Len(sel.ps)}
       [] sel.k = "range" -> sel.a..sel.b
       [] sel.k = "key" -> {KeyPart[sel.key]}
-EPSub(sel, from, w) ==
+EPSub(c, sel, from, w) ==
     LET units == SelParts(sel)
         mapped(p) == from.k = "map" /\ \E j \in 1..Len(from.m) : from.m[j].p = p
         start(p) == IF from.k = "all" THEN from.v
                     ELSE IF mapped(p) THEN (CHOOSE e \in {from.m[j] : j \in 1..Len(from.m)} : e.p = p).v
                     ELSE IF from.k = "map" /\ from.d >= 0 THEN from.d
                     ELSE Len(log[p])
-    IN /\ subs' = Append(subs, [kind |-> "P", units |-> units, from |-> [p \in units |-> start(p)], win |-> WinOf(w), ack |-> 0])
+    IN /\ subs' = Append(subs, [kind |-> "P", units |-> units, from |-> [p \in units |-> start(p)], win |-> WinOf(w), ack |-> 0,
+                                 conn |-> c, open |-> TRUE])
        /\ UNCHANGED log
-       /\ Step([cmd |-> "EPSUB", sel |-> sel, from |-> from, win |-> w, res |-> [sub |-> Len(subs) + 1]])
+       /\ Step(c, [cmd |-> "EPSUB", sel |-> sel, from |-> from, win |-> w, res |-> [sub |-> Len(subs) + 1]])
 \* EACK <subscription> <cursor>: acknowledges the first c deliveries (cursor c - 1)
-EAck(i, c) ==
-    /\ i \in 1..Len(subs) /\ c > subs[i].ack /\ c <= Delivered(log, subs[i])
-    /\ subs' = [subs EXCEPT ![i].ack = c]
+EAck(c, i, upto) ==
+    /\ i \in 1..Len(subs) /\ subs[i].open /\ subs[i].conn = c
+    /\ upto > subs[i].ack /\ upto <= Delivered(log, subs[i])
+    /\ subs' = [subs EXCEPT ![i].ack = upto]
     /\ UNCHANGED log
-    /\ Step([cmd |-> "EACK", sub |-> i, upto |-> c, res |-> [ok |-> TRUE]])
+    /\ Step(c, [cmd |-> "EACK", sub |-> i, upto |-> upto, res |-> [ok |-> TRUE]])
+\* EACK for a subscription of another connection (or a closed one): not found, nothing changes
+EAckForeign(c, i) ==
+    /\ i \in 1..Len(subs) /\ (subs[i].conn # c \/ ~subs[i].open)
+    /\ UNCHANGED <<log, subs>>
+    /\ Step(c, [cmd |-> "EACK_FOREIGN", sub |-> i, res |-> [error |-> TRUE]])
+\* the client closes the connection and opens a new one: the subscriptions of the old one end
+Reconnect(c) ==
+    /\ subs' = [i \in 1..Len(subs) |-> IF subs[i].conn = c THEN [subs[i] EXCEPT !.open = FALSE] ELSE subs[i]]
+    /\ UNCHANGED log
+    /\ Step(c, [cmd |-> "RECONNECT", res |-> [ok |-> TRUE]])
+\* HELLO 3 and PING
+Hello(c) == UNCHANGED <<log, subs>> /\ Step(c, [cmd |-> "HELLO", res |-> [server |-> "sierradb", num_partitions |-> NPart]])
+Ping(c) == UNCHANGED <<log, subs>> /\ Step(c, [cmd |-> "PING", res |-> "PONG"])
 
 ----------------------------------------------------------------------------
 (* properties of the prescribed replies *)
@@ -235,5 +255,7 @@ FlagsConsistent ==
         LET r == PScan(log, p, start, end, count) IN ~(r.must_more /\ r.must_not_more)
 \* deliveries never exceed acknowledged + window
 WindowBound == \A i \in 1..Len(subs) : Delivered(log, subs[i]) <= subs[i].ack + subs[i].win
-ApiInv == AppendReplyMatchesLog /\ FlagsConsistent /\ WindowBound /\ StreamGapless /\ OneKeyPerStream /\ TxContiguous
+\* only the owning connection acknowledges
+LastAckOwned == (h # << >> /\ LastStep.cmd = "EACK") => subs[LastStep.sub].conn = LastStep.conn
+ApiInv == AppendReplyMatchesLog /\ FlagsConsistent /\ WindowBound /\ LastAckOwned /\ StreamGapless /\ OneKeyPerStream /\ TxContiguous
 =============================================================================
